@@ -276,6 +276,29 @@ func c04Run(c c04Case) (inForce bool, probe Verdict, entitled bool, note string)
 		defer w.Close()
 		loc := &core.CRLLocations{CRLDistributionPoints: []string{c04URL}}
 		chains := core.NewCertificateChains(chain, trusted)
+		if c.Path == "refresh-after-genuine-refresh" {
+			// the genuine document is loaded and refreshed once more (periodic path) before the tampered one is served:
+			// whatever a refresh remembers about the previous document, the signed content decides
+			genuine, _, _, _, _, _ := c04Doc(c)
+			w.Net.Serve(c04URL, "genuine", genuine)
+			if _, err := w.Repo.AddCRL(loc, chains); err != nil {
+				note = "setup: genuine document not loaded: " + err.Error()
+				return
+			}
+			w.Repo.UpdateCRLs()
+			ents := w.Repo.VerifEntries()
+			if len(ents) != 1 || !ents[0].Loaded {
+				note = "setup: genuine document not in force after its refresh"
+				return
+			}
+			before := storeDigest(ents[0].Store)
+			w.Net.Serve(c04URL, "candidate", doc)
+			w.Repo.UpdateCRLs()
+			probe = w.IsRevoked(leaf.Cert, loc)
+			ents = w.Repo.VerifEntries()
+			inForce = len(ents) == 1 && storeDigest(ents[0].Store) != before // the store now holds something else than the genuine list
+			return
+		}
 		if c.Path == "first-load" {
 			w.Net.Serve(c04URL, "candidate", doc)
 			_, err := w.Repo.AddCRL(loc, chains)
@@ -435,6 +458,15 @@ func RunC04(tier string, args []string) int {
 				judge(c)
 				flips++
 			}
+		}
+		// flips inside the signed content (the signature value stays the genuine one), after the genuine document was
+		// loaded and refreshed
+		_, tbsEnd, _ := c04Regions(doc)
+		for bit := tbsStart * 8; bit < tbsEnd*8; bit++ {
+			c := base
+			c.Path, c.Flip = "refresh-after-genuine-refresh", bit
+			judge(c)
+			flips++
 		}
 	}
 	if len(samples) == 0 {
